@@ -9,7 +9,7 @@ CONSTANTS
   None <- NoneV
   Known <- KnownAll
 VIEW View
-CONSTRAINT Bound
+CONSTRAINT BoundR
 INVARIANT C17Holds
 INVARIANT Consistent
 PROPERTY C16Prop
